@@ -9,6 +9,7 @@ PRELUDE = S.PRELUDE + r'''
 #endif
 struct theta_isect { bool is_valid_; struct theta_base table_; };
 /* ghost for the matching loop: whether entry g_e was looked up, and whether it was recorded as a match */
+bool g_continue;   /* ghost: the state block fell through to the rest of update() */
 bool g_e_looked, g_e_matched; uint32_t g_match_count, g_count; uint32_t g_max_matches;
 void record_match(EN* slot) __CPROVER_assigns() __CPROVER_ensures(1);
 '''
@@ -22,7 +23,10 @@ HEAD1 = {"raw": r'''
 /* the first statements of theta_intersection_base::update (state rule: emptiness and theta), extracted as a region */
 void isect_header(struct theta_isect* self, const struct csk* sketch)
 __CPROVER_requires(__CPROVER_is_fresh(self, sizeof(*self)) && __CPROVER_is_fresh(sketch, sizeof(*sketch)) && verif_exc == 0)
-__CPROVER_assigns(verif_exc, self->table_.is_empty_, self->table_.theta_)
+__CPROVER_requires(!g_continue)
+__CPROVER_assigns(verif_exc, self->table_.is_empty_, self->table_.theta_, g_continue)
+/* update() goes on to look at the entries unless the intersection was already empty, the input was refused, or a valid intersection already has no entries */
+__CPROVER_ensures((g_continue != 0) == (!__CPROVER_old(self->table_.is_empty_) && verif_exc == 0 && !(self->is_valid_ && self->table_.num_entries_ == 0)))
 /* an intersection that is already empty stays as it is, whatever comes in */
 __CPROVER_ensures(__CPROVER_old(self->table_.is_empty_) ==> (verif_exc == 0 && self->table_.is_empty_ && self->table_.theta_ == __CPROVER_old(self->table_.theta_)))
 /* a non-empty input with another seed is refused */
@@ -42,7 +46,7 @@ UNIT = {
     "id": "theta_intersection_state", "property": "C02",
     "clause": "theta_intersection_base::update state rule (first statements of update): an empty intersection stays empty; a non-empty input with another seed hash is refused with nothing changed; "
               "otherwise the result is empty as soon as one input is empty (theta = MAX_THETA) and else theta = min(previous theta, input theta)",
-    "prelude": PRELUDE, "parts": [HEAD1, REGION1, TAIL],
+    "prelude": PRELUDE, "parts": [HEAD1, REGION1, {"raw": "\n g_continue = 1;\n}\n"}],
     "harness": "void h_isect_header(void) { struct theta_isect* s = malloc(sizeof(*s)); struct csk* k = malloc(sizeof(*k)); verif_exc = 0; isect_header(s, k); VERIF_CANARY_POINT; }\n",
     "jobs": [{"name": "isect_header", "entry": "h_isect_header", "enforce": "isect_header", "replace": ["compute_seed_hash"], "timeout": 300}],
     "assumptions": ["the block is extracted as a region of update() and wrapped in a function whose signature and contract are specification; compute_seed_hash enters as 'some fixed 16-bit value' (Murmur itself is decided in C10)",
@@ -165,4 +169,45 @@ UNIT3 = {
     "assumptions": ["the block is extracted as a region of update() and wrapped in a function whose signature and contract are specification",
                     "hash_table construction, find and insert enter by ghost contracts (fresh empty table; answer g_found for the key of the ghost entry; one more entry per insert - a rebuild inside insert is not on this path because the table is sized from the count: assumed, lg_size_from_count is C01)"],
 }
-UNITS = [UNIT, UNIT2, UNIT3]
+
+LOOPC4 = ("for (uint32_t i = 0; i < match_count; ++i)\n"
+  "__CPROVER_assigns(i, g_find_calls, g_last_find, g_insert_calls, self->table_.num_entries_, g_e_examined)\n"
+  "__CPROVER_loop_invariant(i <= match_count && self->table_.num_entries_ == i && g_insert_calls == g_ins0 + i && g_e_examined == (i > g_e))\n"
+  "__CPROVER_decreases(match_count - i)\n"
+  "{")
+HEAD4 = {"raw": r"""
+#undef VERIF_RV
+#define VERIF_RV
+#undef VERIF_UNWIND
+#define VERIF_UNWIND
+/* the closing block of the intersection branch of theta_intersection_base::update (new table from the matched entries), extracted as a region */
+void isect_rebuild(struct theta_isect* self, const EN* matched_entries, uint32_t match_count)
+__CPROVER_requires(__CPROVER_is_fresh(self, sizeof(*self)) && match_count <= (1u << 27) && __CPROVER_is_fresh(matched_entries, (size_t)(match_count ? match_count : 1) * sizeof(EN)) && verif_exc == 0)
+__CPROVER_requires((match_count == 0 || g_e < match_count) && !g_e_examined && g_find_calls < 1000 && g_insert_calls < 1000 && g_ins0 == g_insert_calls && g_new_calls == 0)
+__CPROVER_assigns(self->table_.is_empty_, self->table_.num_entries_, self->table_.lg_cur_size_, self->table_.lg_nom_size_, g_new_calls, g_find_calls, g_last_find, g_insert_calls, g_e_examined)
+/* one fresh table that keeps theta and seed; it holds exactly the matched entries (an arbitrary one, g_e, was inserted; inserts == matches) */
+__CPROVER_ensures(verif_exc == 0 && g_new_calls == 1 && self->table_.theta_ == __CPROVER_old(self->table_.theta_) && self->table_.num_entries_ == match_count && g_insert_calls == g_ins0 + match_count)
+__CPROVER_ensures(match_count != 0 ==> (g_e_examined && (self->table_.is_empty_ != 0) == (__CPROVER_old(self->table_.is_empty_) != 0)))
+/* no match: minimal table; the result is the empty set exactly if it was empty already or theta is still the maximum (no sampling anywhere) */
+__CPROVER_ensures(match_count == 0 ==> (self->table_.lg_cur_size_ == 0 && (self->table_.is_empty_ != 0) == (__CPROVER_old(self->table_.is_empty_) != 0 || self->table_.theta_ == theta_constants_MAX_THETA)))
+{
+"""}
+REGION4 = {"name": "intersection_update_rebuild_block", "file": IF, "members": MEMBERS,
+           "begin": r"if \(match_count == 0\) \{", "include_begin": True, "end": r"\}\s*\}\s*template<[^>]*>\s*CS theta_intersection_base<EN, EK, P, S, CS, A>::get_result",
+           "rules": [(r"theta_update_sketch_base<EN, EK, A>::REBUILD_THRESHOLD", "REBUILD_THRESHOLD_C", 1),
+                     (r"self->table_ = hash_table\(([^,]+), ([^,]+), resize_factor::X1, 1, self->table_\.theta_, self->table_\.seed_, self->table_\.allocator_, self->table_\.is_empty_\);",
+                      r"table_new(&self->table_, \1, \2, self->table_.theta_, self->table_.seed_, self->table_.is_empty_);", 2),
+                     (r"for \(uint32_t i = 0; i < match_count; \+\+i\) \{", LOOPC4, 1),
+                     (r"auto result = self->table_\.find\(KEY\(matched_entries\[i\]\)\);", "find_result result = find_k(&self->table_, KEY(matched_entries[i]));", 1),
+                     (r"self->table_\.insert\(result\.first, std::move\(matched_entries\[i\]\)\);", "insert_c(&self->table_, result.first, matched_entries[i]); if (i == g_e) g_e_examined = 1;", 1)]}
+UNIT4 = {
+    "id": "theta_intersection_rebuild", "property": "C02",
+    "clause": "theta_intersection_base::update closing block for every match count: one fresh table that keeps theta and seed and receives every matched entry exactly once; with no match the table is minimal and "
+              "the result is the empty set exactly if it was empty already or theta is still MAX_THETA",
+    "prelude": PRELUDE3, "parts": [HEAD4, REGION4, TAIL],
+    "harness": "void h_isect_rebuild(void) { struct theta_isect* s = malloc(sizeof(*s)); const EN* m; verif_exc = 0; isect_rebuild(s, m, nondet_u32()); VERIF_CANARY_POINT; }\n",
+    "jobs": [{"name": "isect_rebuild", "entry": "h_isect_rebuild", "enforce": "isect_rebuild", "replace": ["find_k", "insert_c", "table_new", "lg_size_from_count"], "loops": True, "expect_loop_steps": 1, "timeout": 600}],
+    "assumptions": ["the block is extracted as a region of update() and wrapped in a function whose signature and contract are specification (matched_entries / match_count are its inputs)",
+                    "hash_table construction, find and insert enter by the same ghost contracts as in theta_intersection_first"],
+}
+UNITS = [UNIT, UNIT2, UNIT3, UNIT4]
